@@ -234,7 +234,7 @@ def run(prog, ctx):
                   "delegates to every per-dimension container",
                   "MetaRefinementContainer.%s does not delegate to every per-dimension container%s"
                   % (m, " (or drops the sort flag)" if m == "apply_remove" else ""))
-    ctx.floor("C14.D4", n4, 4, "delegating methods of the meta container")
+    ctx.floor("C14.D4", n4, 2, "delegating methods of the meta container")
     rc = prog.func("RefinementContainer.RefinementContainer.reinit_new_objects")
     ctx.touch(rc)
     sts = {s.attr: s for s in R.self_stores(rc) if s.kind == "plain"}
